@@ -8,7 +8,7 @@ tier = "quick"
 if "--tier" in args:
     i = args.index("--tier"); tier = args[i + 1]; del args[i:i + 2]
 seeds = args or sorted(d for d in os.listdir("/verif/seeded") if re.match(r"C\d+-\d+$", d))
-EXTRA = {"C04-2": ["C09"], "C07-1": ["C09"], "C03-1": ["C09"], "C11-2": ["C01"], "C06-4": ["C12"], "C08-3": ["C07"], "C01-3": ["C13"], "C02-4": ["C13"]}
+EXTRA = {"C04-2": ["C09"], "C07-1": ["C09"], "C03-1": ["C09"], "C11-2": ["C01"], "C06-4": ["C12"], "C08-3": ["C07"], "C01-3": ["C13"], "C02-4": ["C13"], "C12-4": ["C20"]}
 resfile = "/verif/seeded/results-%s.json" % tier
 results = json.load(open(resfile)) if os.path.exists(resfile) else {}
 force = "--force" in sys.argv
